@@ -90,14 +90,25 @@ func main() {
 	for _, engine := range []string{"sherpa", "olla"} {
 		for _, rt := range routes {
 			for k := 1; k <= 2; k++ {
-				idx++
-				if !report.Mine(idx) {
-					continue
+				for _, rg := range routings {
+					if rg.name != "default" && k == 2 && !report.Thorough() {
+						continue
+					}
+					idx++
+					if !report.Mine(idx) {
+						continue
+					}
+					runConfig(engine, rt, k, rg)
 				}
-				runConfig(engine, rt, k)
 			}
 		}
 	}
+	var rgn []string
+	for _, rg := range routings {
+		rgn = append(rgn, rg.name)
+	}
+	res.Info["routing_configurations"] = rgn
+	res.Info["routing_note"] = "non-default routing configurations run the modes in which the routing decision is what fails or shapes the request: all-unhealthy, unknown-model, refuse (twice: the second request finds every endpoint marked offline)"
 	var mn []string
 	for _, m := range modes() {
 		mn = append(mn, m.name)
@@ -112,7 +123,26 @@ func main() {
 	res.Finish()
 }
 
-func runConfig(engine string, rt route, k int) {
+// routing: the model-routing configuration is part of the failure path - with nothing healthy or an unknown
+// model it is the routing decision that has to become the client's error.
+type routing struct {
+	name     string
+	typ      string
+	fallback string
+	refresh  bool
+}
+
+var routings = []routing{
+	{name: "default"},
+	{"strict", "strict", "", false},
+	{"optimistic/all", "optimistic", "all", false},
+	{"optimistic/compatible_only", "optimistic", "compatible_only", false},
+	{"optimistic/none", "optimistic", "none", false},
+	{"discovery-norefresh/all", "discovery", "all", false},
+	{"discovery/none", "discovery", "none", true},
+}
+
+func runConfig(engine string, rt route, k int, rg routing) {
 	var bes []*stack.Backend
 	var eps []stack.EP
 	for i := 0; i < k; i++ {
@@ -142,6 +172,10 @@ func runConfig(engine string, rt route, k int) {
 		var err error
 		o, err = stack.Boot(stack.Opts{Engine: engine, Balancer: "priority", Endpoints: e, ModelDiscovery: true, Mutate: func(c *config.Config) {
 			c.Translators.Anthropic.PassthroughEnabled = true
+			if rg.name != "default" {
+				c.ModelRegistry.RoutingStrategy = config.ModelRoutingStrategy{Type: rg.typ, Options: config.ModelRoutingStrategyOptions{FallbackBehavior: rg.fallback,
+					DiscoveryRefreshOnMiss: rg.refresh, DiscoveryTimeout: time.Second}}
+			}
 		}})
 		if err != nil {
 			if !withEndpoints {
@@ -160,7 +194,11 @@ func runConfig(engine string, rt route, k int) {
 		}
 	}()
 	failures := 0
-	for _, m := range modes() {
+	ms := modes()
+	if rg.name != "default" {
+		ms = []mode{{name: "all-unhealthy"}, {name: "unknown-model"}, {name: "refuse"}, {name: "refuse-again"}}
+	}
+	for _, m := range ms {
 		if m.name == "malformed-json-200" && !rt.translated {
 			continue
 		}
@@ -188,7 +226,7 @@ func runConfig(engine string, rt route, k int) {
 				b.Reset()
 				b.Refuse(false)
 			}
-			if m.name != "no-endpoints" {
+			if m.name != "no-endpoints" && m.name != "refuse-again" {
 				for _, b := range bes {
 					o.SetStatus(b.Name, "healthy")
 				}
@@ -200,7 +238,7 @@ func runConfig(engine string, rt route, k int) {
 				}
 			case "unknown-model":
 				model = "no-such-model"
-			case "refuse":
+			case "refuse", "refuse-again": // refuse-again: the previous request's failed attempts have marked every endpoint offline
 				for _, b := range bes {
 					b.Refuse(true)
 				}
@@ -240,13 +278,13 @@ func runConfig(engine string, rt route, k int) {
 			r := stack.Do(o.Addr, &stack.Req{Method: "POST", Target: rt.target, Body: reqBody(rt, model, stream), Timeout: 5 * time.Second,
 				Headers: [][2]string{{"Content-Type", "application/json"}, {"anthropic-version", "2023-06-01"}}})
 			res.Add("evaluations", 1)
-			judge(engine, rt, k, m, stream, r, time.Since(t0), bes)
+			judge(engine, rt, k, m, stream, r, time.Since(t0), bes, rg)
 		}
 	}
 }
 
-func judge(engine string, rt route, k int, m mode, stream bool, r *stack.Resp, dur time.Duration, bes []*stack.Backend) {
-	cell := fmt.Sprintf("engine=%s route=%s k=%d mode=%s stream=%v", engine, rt.name, k, m.name, stream)
+func judge(engine string, rt route, k int, m mode, stream bool, r *stack.Resp, dur time.Duration, bes []*stack.Backend, rg routing) {
+	cell := fmt.Sprintf("engine=%s route=%s k=%d routing=%s mode=%s stream=%v", engine, rt.name, k, rg.name, m.name, stream)
 	rp := map[string]any{"engine": "stack", "cell": cell}
 	wit := func(extra map[string]any) map[string]any {
 		w := map[string]any{"route": rt.name, "mode": modeClass(m)}
@@ -264,6 +302,16 @@ func judge(engine string, rt route, k int, m mode, stream bool, r *stack.Resp, d
 	if r.ConnErr != "" {
 		res.Violate("no-http-response", wit(map[string]any{"stream": stream}), det, rp)
 		return
+	}
+	if r.Status >= 200 && r.Status < 300 && (m.name == "unknown-model" || m.name == "all-unhealthy") {
+		// with a fallback that sends the request to the healthy set a working backend may legitimately have served it:
+		// then nothing failed and there is nothing to report as a failure
+		for _, b := range bes {
+			if len(b.Requests()) > 0 {
+				res.Add("served_through_fallback_not_a_failure", 1)
+				return
+			}
+		}
 	}
 	if r.Status >= 200 && r.Status < 300 {
 		cl := "success-status-on-failure"
